@@ -737,8 +737,10 @@ fn est_roundtrip(req: &J) -> J {
         return match cedar_policy::Policy::from_pst(pst.clone()) {
             Ok(q) => {
                 // ids may differ: compare after giving the rebuilt policy the original id
-                let q = q.new_id(id);
-                json!({"equal": p == q, "back": q.to_string()})
+                let q = q.new_id(id.clone());
+                let printed = q.to_string();
+                let reparsed = cedar_policy::Policy::parse(Some(id), &printed);
+                json!({"equal": p == q, "back": printed, "printed_equal": reparsed.map(|r| r == p).unwrap_or(false)})
             }
             Err(e) => json!({"equal": false, "back": format!("error: {e}")}),
         };
@@ -747,8 +749,13 @@ fn est_roundtrip(req: &J) -> J {
         Ok(j) => j,
         Err(e) => return json!({"to_json_error": e.to_string()}),
     };
-    match cedar_policy::Policy::from_json(Some(id), j.clone()) {
-        Ok(q) => json!({"equal": p == q, "back": q.to_string(), "json": j}),
+    match cedar_policy::Policy::from_json(Some(id.clone()), j.clone()) {
+        Ok(q) => {
+            // a policy built from JSON prints through the EST printer: the text has to denote the same policy
+            let printed = q.to_string();
+            let reparsed = cedar_policy::Policy::parse(Some(id), &printed);
+            json!({"equal": p == q, "back": printed, "json": j, "printed_equal": reparsed.map(|r| r == p).unwrap_or(false)})
+        }
         Err(e) => json!({"equal": false, "back": format!("error: {e}"), "json": j}),
     }
 }
@@ -1449,6 +1456,121 @@ fn tpe_store(req: &J) -> J {
     json!({"concrete": concrete, "routes": routes})
 }
 
+/// one extension constructor applied to one string (a panic is caught by the caller): {fn, arg} -> {ok} | {err}
+fn ext_parse(req: &J) -> J {
+    use cedar_policy_core::ast::{Expr, Name, RestrictedExpr};
+    use cedar_policy_core::evaluator::RestrictedEvaluator;
+    use cedar_policy_core::extensions::Extensions;
+    let name: Name = match req["fn"].as_str().unwrap_or("").parse() { Ok(n) => n, Err(e) => return json!({"input_error": format!("{e}")}) };
+    let e = Expr::call_extension_fn(name, vec![Expr::val(req["arg"].as_str().unwrap_or(""))]);
+    let re = match RestrictedExpr::new(e) { Ok(r) => r, Err(e) => return json!({"input_error": e.to_string()}) };
+    match RestrictedEvaluator::new(Extensions::all_available()).interpret(re.as_borrowed()) {
+        Ok(v) => json!({"ok": v.to_string()}),
+        Err(e) => json!({"err": e.to_string()}),
+    }
+}
+
+fn action_uid() -> cedar_policy::EntityUid { use std::str::FromStr; cedar_policy::EntityUid::from_str(r#"Action::"view""#).unwrap() }
+
+/// entity / context JSON: write-read round trips and implicit (schema-directed) vs explicit (escaped) forms.  -> {checks: [{what, ok, detail}]}
+fn value_json(req: &J) -> J {
+    use cedar_policy::{Context, Entity, EntityUid, Schema};
+    use std::str::FromStr;
+    let schema = match Schema::from_cedarschema_str(req["schema"].as_str().unwrap_or("")) { Ok(s) => s.0, Err(e) => return json!({"input_error": e.to_string()}) };
+    let mut checks: Vec<J> = vec![];
+    let mut add = |what: &str, ok: bool, detail: String| checks.push(json!({"what": what, "ok": ok, "detail": detail}));
+    for (label, sch) in [("with the schema", Some(&schema)), ("without a schema", None)] {
+        match Entities::from_json_value(req["entities"].clone(), sch) {
+            Err(e) => add(&format!("the explicit entities document parses {label}"), false, e.to_string()),
+            Ok(ents) => {
+                add(&format!("the explicit entities document parses {label}"), true, String::new());
+                match ents.to_json_value() {
+                    Err(e) => add(&format!("Entities::to_json_value {label}"), false, e.to_string()),
+                    Ok(j) => match Entities::from_json_value(j.clone(), sch) {
+                        Err(e) => add(&format!("Entities written by to_json_value are read back {label}"), false, format!("{e}; document {j}")),
+                        Ok(back) => add(&format!("Entities::to_json_value -> from_json_value gives the same entities {label}"), back.deep_eq(&ents), format!("document {j}")),
+                    },
+                }
+                for e in ents.iter() {
+                    match e.to_json_value() {
+                        Err(err) => add(&format!("Entity::to_json_value of {} {label}", e.uid()), false, err.to_string()),
+                        Ok(j) => match Entity::from_json_value(j.clone(), sch) {
+                            Err(err) => add(&format!("the entity {} written by to_json_value is read back {label}", e.uid()), false, format!("{err}; document {j}")),
+                            Ok(back) => add(&format!("Entity::to_json_value -> from_json_value gives the same entity {} {label}", e.uid()), back.deep_eq(e), format!("document {j}")),
+                        },
+                    }
+                }
+            }
+        }
+    }
+    // the parsed data is what the Cedar-text literals of the probes say (anchors the JSON reader to the text parser, not only to the JSON writer)
+    for (label, sch) in [("with the schema", Some(&schema)), ("without a schema", None)] {
+        if let Ok(ents) = Entities::from_json_value(req["entities"].clone(), sch) {
+            for probe in req["probes"].as_array().cloned().unwrap_or_default() {
+                let cond = probe.as_str().unwrap_or("false");
+                let ps = match PolicySet::from_str(&format!("permit(principal, action, resource) when {{ {cond} }};")) { Ok(p) => p, Err(e) => { add(&format!("probe `{cond}` parses"), false, e.to_string()); continue } };
+                let au = action_uid();
+                let cx = match Context::from_json_value(req["context"].clone(), sch.map(|s| (s, &au))) { Ok(c) => c, Err(e) => { add("the context parses", false, e.to_string()); continue } };
+                let q = Request::new(EntityUid::from_str(r#"User::"u1""#).unwrap(), action_uid(), EntityUid::from_str(r#"User::"u2""#).unwrap(), cx, None).unwrap();
+                let resp = Authorizer::new().is_authorized(&q, &ps, &ents);
+                let errs: Vec<String> = resp.diagnostics().errors().map(|e| e.to_string()).collect();
+                add(&format!("the store parsed {label} satisfies `{cond}`"), format!("{:?}", resp.decision()) == "Allow", errs.join("; "));
+            }
+        }
+    }
+    // implicit forms under the schema = explicit escapes
+    match (Entities::from_json_value(req["entities"].clone(), Some(&schema)), Entities::from_json_value(req["implicit"].clone(), Some(&schema))) {
+        (Ok(a), Ok(b)) => {
+            add("schema-directed parsing of the implicit forms ({type, id}, bare extension strings) gives the same entities as the explicit escapes", a.deep_eq(&b), String::new());
+            // ... and as the explicit escapes parsed without a schema (the schema only contributes its action entities)
+            if let Ok(c) = Entities::from_json_value(req["entities"].clone(), None) {
+                let same = c.iter().all(|e| b.get(&e.uid()).map(|x| x.deep_eq(e)).unwrap_or(false)) && b.iter().all(|e| c.get(&e.uid()).is_some() || e.uid().type_name().to_string().ends_with("Action"));
+                add("the implicit forms parsed with the schema give the same entities as the explicit escapes parsed without a schema (plus the schema's actions)", same, String::new());
+            }
+        }
+        (_, Err(e)) => add("the implicit entities document parses with the schema", false, e.to_string()),
+        (Err(e), _) => add("the explicit entities document parses with the schema", false, e.to_string()),
+    }
+    let action = EntityUid::from_str(r#"Action::"view""#).unwrap();
+    match (Context::from_json_value(req["context"].clone(), Some((&schema, &action))), Context::from_json_value(req["implicit_context"].clone(), Some((&schema, &action))), Context::from_json_value(req["context"].clone(), None)) {
+        (Ok(a), Ok(b), Ok(c)) => {
+            add("schema-directed parsing of the implicit context gives the same context as the explicit escapes", a == b, String::new());
+            add("the explicit context parses to the same context with and without the schema", a == c, String::new());
+            match a.to_json_value() {
+                Err(e) => add("Context::to_json_value", false, e.to_string()),
+                Ok(j) => {
+                    add("Context::to_json_value -> from_json_value (no schema) gives the same context", Context::from_json_value(j.clone(), None).map(|x| x == a).unwrap_or(false), format!("document {j}"));
+                    add("Context::to_json_value -> from_json_value (schema) gives the same context", Context::from_json_value(j.clone(), Some((&schema, &action))).map(|x| x == a).unwrap_or(false), format!("document {j}"));
+                }
+            }
+        }
+        (a, b, c) => add("the context documents parse", false, format!("{:?} {:?} {:?}", a.err().map(|e| e.to_string()), b.err().map(|e| e.to_string()), c.err().map(|e| e.to_string()))),
+    }
+    // values that cannot be represented are refused when writing
+    for key in ["__entity", "__extn", "__expr"] {
+        use cedar_policy::RestrictedExpression;
+        let rec = RestrictedExpression::new_record([(key.to_string(), RestrictedExpression::new_long(1))]).unwrap();
+        let e = Entity::new(EntityUid::from_str(r#"Group::"g""#).unwrap(), [("x".to_string(), rec.clone())].into_iter().collect(), Default::default());
+        match e {
+            Ok(e) => add(&format!("an entity with a record attribute whose key is {key} is refused by to_json_value"), e.to_json_value().is_err(), String::new()),
+            Err(err) => add(&format!("an entity with a record key {key} can be built through the API"), false, err.to_string()),
+        }
+        let cx = Context::from_pairs([("x".to_string(), rec)]);
+        match cx {
+            Ok(cx) => add(&format!("a context with a record value whose key is {key} is refused by to_json_value"), cx.to_json_value().is_err(), String::new()),
+            Err(err) => add(&format!("a context with a record key {key} can be built through the API"), false, err.to_string()),
+        }
+    }
+    // documents that must be refused
+    for (what, doc) in [("null as an attribute value", json!([{"uid": {"type": "Group", "id": "g"}, "attrs": {"x": null}, "parents": []}])),
+                        ("the removed __expr escape", json!([{"uid": {"type": "Group", "id": "g"}, "attrs": {"x": {"__expr": "1 + 1"}}, "parents": []}])),
+                        ("a number that is not an i64", json!([{"uid": {"type": "Group", "id": "g"}, "attrs": {"x": 9223372036854775808u64}, "parents": []}])),
+                        ("a fractional number", json!([{"uid": {"type": "Group", "id": "g"}, "attrs": {"x": 1.5}, "parents": []}]))] {
+        add(&format!("{what} is refused"), Entities::from_json_value(doc, None).is_err(), String::new());
+    }
+    json!({"checks": checks})
+}
+
 fn handle(req: &J) -> J {
     match req["op"].as_str().unwrap_or("") {
         "eval" => eval(req),
@@ -1475,6 +1597,8 @@ fn handle(req: &J) -> J {
         "fuzzy" => fuzzy(req),
         "validate_eval" => validate_eval(req),
         "tpe_store" => tpe_store(req),
+        "ext_parse" => ext_parse(req),
+        "value_json" => value_json(req),
         "manifest_slice" => manifest_slice(req),
         "est_print" => est_print(req),
         "ffi_convert" => ffi_convert(req),
